@@ -32,6 +32,9 @@ Proof. induction l as [|x l IH]; cbn [nodes_eqb]; auto. rewrite node_eqb_refl, I
 Lemma event_eqb_refl e : event_eqb e e = true.
 Proof. destruct e; cbn [event_eqb]; rewrite ?Nat.eqb_refl, ?slot_eqb_refl; reflexivity. Qed.
 
+Lemma born_birth k id s : born k id s (birth k id s) = true.
+Proof. unfold birth, born. destruct (is_pool k) eqn:E; rewrite ?E, Nat.eqb_refl, slot_eqb_refl; reflexivity. Qed.
+
 Lemma lookup_id_in l n : NoDup (ids l) -> In n l -> lookup_id l (n_id n) = Some n.
 Proof.
   induction l as [|x l IH]; intros Hnd Hin; [destruct Hin|].
@@ -86,7 +89,7 @@ Proof.
     rewrite lookup_id_none.
     2:{ intros n Hn E. assert (n_id n < nid)%nat by (apply Hlt; apply in_or_app; auto). lia. }
     apply andb_true_iff. split; [apply Nat.leb_le; lia|].
-    apply existsb_exists. exists (birth k (n_id n') (n_slot n')). split; auto. apply event_eqb_refl.
+    apply existsb_exists. exists (birth k (n_id n') (n_slot n')). split; auto. apply born_birth.
   - destruct (NoDup_ids_app _ _ Hnd) as (Hs & _). rewrite <- F1. rewrite (lookup_id_in _ _ Hs Hn).
     rewrite <- F2, <- F3, slot_eqb_refl, Z.eqb_refl. cbn [andb].
     destruct F4 as [<- | ->]; [rewrite Z.eqb_refl; reflexivity|apply orb_true_r].
@@ -96,14 +99,14 @@ Qed.
 Definition check_common (kd : kind) (st : sstate) (o : op) (now : obs) (ev : list event) : bool :=
   nodup_nat (map n_id (ob_a now ++ ob_b now)) && nodup_slot (map n_slot (ob_a now ++ ob_b now)) &&
   (if is_pool kd then forallb pool_event_ok ev else true) &&
-  (if is_destroy_op o then true else negb (existsb is_free ev)) &&
-  forallb (destroy_ok (ob_a (ss_obs st) ++ ob_b (ss_obs st))) ev.
+  forallb (free_ok o (ob_a now ++ ob_b now)) ev &&
+  forallb (destroy_ok (ob_a (ss_obs st) ++ ob_b (ss_obs st)) (ss_next st)) ev.
 
 Definition check_sides (kd : kind) (st : sstate) (o : op) (now : obs) (ev : list event) : bool :=
   (if ss_cur st then nodes_eqb (ob_a now) (ob_a (ss_obs st)) else nodes_eqb (ob_b now) (ob_b (ss_obs st))) &&
   forallb (elem_ok kd o (negb (ss_cur st)) (ss_next st) ev (ob_a (ss_obs st)) (ob_b (ss_obs st))) (ob_a now) &&
   forallb (elem_ok kd o (ss_cur st) (ss_next st) ev (ob_b (ss_obs st)) (ob_a (ss_obs st))) (ob_b now) &&
-  (if ss_cur st then removed_ok kd o (ob_b (ss_obs st)) (ob_b now) else removed_ok kd o (ob_a (ss_obs st)) (ob_a now)).
+  (if ss_cur st then removed_ok kd o (ob_b (ss_obs st)) (ob_a (ss_obs st)) (ob_b now) else removed_ok kd o (ob_a (ss_obs st)) (ob_b (ss_obs st)) (ob_a now)).
 
 Lemma check_step_noswap kd st o now ev :
   o <> OSwap -> check_step kd st o now ev = check_common kd st o now ev && check_sides kd st o now ev.
@@ -140,10 +143,10 @@ Proof.
   - apply nodup_slot_true. pose proof (Inv_slots _ _ HI') as H. apply (NoDup_app_r sdec) in H. exact H.
   - destruct (is_pool k) eqn:Ep; auto. apply forallb_forall. intros e He.
     pose proof (sf_pool _ _ _ _ _ F Ep) as Hp. rewrite Forall_forall in Hp. specialize (Hp e He). destruct e; auto; contradiction.
-  - destruct o; cbn [is_destroy_op]; auto; apply negb_true_iff; apply not_true_iff_false; intro H;
-      apply existsb_exists in H; destruct H as (e & He & Hf);
+  - apply forallb_forall. intros e He. destruct e; cbn [free_ok]; auto.
+    destruct o; cbn [is_destroy_op orb]; auto;
       (assert (Hnf : Forall not_free ev) by (apply (sf_free _ _ _ _ _ F); discriminate));
-      rewrite Forall_forall in Hnf; specialize (Hnf e He); destruct e; cbn in *; auto; discriminate.
+      rewrite Forall_forall in Hnf; specialize (Hnf _ He); contradiction.
   - apply forallb_forall. intros e He. pose proof (sf_des _ _ _ _ _ F) as Hd. rewrite Forall_forall in Hd.
     specialize (Hd e He). destruct e; cbn [destroy_ok]; auto. cbn [des_ok] in Hd. destruct Hd as (n & Hn & <- & <-).
     rewrite (lookup_id_in _ _ Hnd); [apply slot_eqb_refl|]. apply all_elems_in. auto.
@@ -168,7 +171,7 @@ Proof.
   destruct (cont_op o) eqn:Eo.
   - pose proof (sf_cur _ _ _ _ _ F Eo) as Hc. pose proof (sf_other _ _ _ _ _ F Eo) as Ho.
     pose proof (sf_nodes _ _ _ _ _ F Eo) as Hn. unfold sel, other in *. rewrite Hc in *.
-    pose proof (sf_lost _ _ _ _ _ F Eo) as Hl. unfold sel in Hl. rewrite Hc in Hl.
+    pose proof (sf_lost _ _ _ _ _ F Eo) as Hl. unfold sel, other in Hl. rewrite Hc in Hl.
     destruct (s_cur st); cbn [negb].
     + rewrite Ho. rewrite nodes_eqb_refl, forallb_untouched by exact Hnda. cbn [andb]. rewrite Hl, andb_true_r.
       apply forallb_forall. intros n' Hn'. eapply elem_ok_selected; eauto.
